@@ -108,6 +108,20 @@ class _IndexLoops(ast.NodeTransformer):
         subs = [n for b in node.body for n in ast.walk(b) if isinstance(n, ast.Subscript) and ast.unparse(n.value) == seq_src
                 and isinstance(n.slice, ast.Name) and n.slice.id == i and isinstance(n.ctx, ast.Load)]
         if len(uses) != len(subs) or not subs:
+            # the index has other uses: `for i in range(len(X)): v = X[i]; …`  ->  `for i, v in enumerate(X): …`
+            # (only when the first statement is exactly that binding and neither `i`, `v` nor `X` is assigned in the body)
+            st0 = node.body[0] if node.body else None
+            if (not rev and isinstance(st0, ast.Assign) and len(st0.targets) == 1 and isinstance(st0.targets[0], ast.Name)
+                    and isinstance(st0.value, ast.Subscript) and ast.unparse(st0.value.value) == seq_src
+                    and isinstance(st0.value.slice, ast.Name) and st0.value.slice.id == i and len(node.body) > 1 and not node.orelse):
+                v = st0.targets[0].id
+                root = seq_src.split(".")[0].split("[")[0]
+                stored = {n.id for b in node.body[1:] for n in ast.walk(b) if isinstance(n, ast.Name) and isinstance(n.ctx, ast.Store)}
+                if v != i and not ({i, v, root} & stored):
+                    tgt = ast.Tuple(elts=[ast.Name(id=i, ctx=ast.Store()), ast.Name(id=v, ctx=ast.Store())], ctx=ast.Store())
+                    call = ast.Call(func=ast.Name(id="enumerate", ctx=ast.Load()), args=[seq], keywords=[])
+                    out = ast.For(target=tgt, iter=call, body=node.body[1:], orelse=[], type_comment=None)
+                    return ast.fix_missing_locations(ast.copy_location(out, node))
             return node
         item = "_it_" + i
 
